@@ -22,9 +22,9 @@ pub fn check_case(h: &History) -> CaseResult {
 }
 
 pub fn run(ctx: &Ctx, rep: &mut Report) {
-    let cases = ctx.share(ctx.tier.pick(60_000, 1_200_000));
+    let cases = ctx.share(ctx.tier.pick(120_000, 1_200_000));
     engine::drive(ctx, rep, "split-histories", iovec_sm::history(Mix::Split, 60), cases, check_case);
-    let cases = ctx.share(ctx.tier.pick(15_000, 300_000));
+    let cases = ctx.share(ctx.tier.pick(30_000, 300_000));
     engine::drive(ctx, rep, "memory-histories", iovec_sm::history(Mix::Memory, 60), cases, check_case);
 }
 
